@@ -6,6 +6,7 @@ import (
 	"crypto/sha1" //nolint:gosec
 	"encoding/base64"
 	"fmt"
+	"math"
 	"net"
 	"strconv"
 	"strings"
@@ -77,6 +78,9 @@ func (s *ltcredSys) Do(a map[string]any, wait func()) ([]Obs, error) {
 	case "Mint":
 		var err error
 		d := time.Duration(toInt(a["dur"])) * 100 * time.Millisecond // (the model counts tenths of a second)
+		if toInt(a["dur"]) == -2000000000 {
+			d = time.Duration(math.MinInt64) // the boundary of the duration domain
+		}
 		if s.kind == "lt" {
 			s.user, s.pass, err = turn.GenerateLongTermCredentials(s.secret, d)
 		} else {
